@@ -563,6 +563,41 @@ static size_t get_value_size(carquet_physical_type_t type, int32_t type_length) 
 }
 
 /* ============================================================================
+ * Helper: Retired page data (BYTE_ARRAY values point into page data)
+ * ============================================================================
+ */
+
+/* Move the current page_data_for_values to the retired list instead of freeing
+ * it: a read that crosses a page boundary has already copied pointers into it
+ * to the caller. Returns false if the list cannot grow. */
+static bool retire_page_data(carquet_column_reader_t* reader) {
+    if (!reader->page_data_for_values) {
+        return true;
+    }
+    if (reader->num_retired_page_data == reader->retired_page_data_capacity) {
+        int32_t capacity = reader->retired_page_data_capacity > 0
+            ? reader->retired_page_data_capacity * 2 : 4;
+        uint8_t** grown = realloc(reader->retired_page_data,
+                                  (size_t)capacity * sizeof(uint8_t*));
+        if (!grown) {
+            return false;
+        }
+        reader->retired_page_data = grown;
+        reader->retired_page_data_capacity = capacity;
+    }
+    reader->retired_page_data[reader->num_retired_page_data++] = reader->page_data_for_values;
+    reader->page_data_for_values = NULL;
+    return true;
+}
+
+void carquet_column_release_retired_pages(carquet_column_reader_t* reader) {
+    for (int32_t i = 0; i < reader->num_retired_page_data; i++) {
+        free(reader->retired_page_data[i]);
+    }
+    reader->num_retired_page_data = 0;
+}
+
+/* ============================================================================
  * Helper: Load dictionary page (mmap path)
  * ============================================================================
  */
@@ -981,7 +1016,11 @@ static carquet_status_t load_next_page_mmap(
      * which persists for the reader's lifetime, so no retention needed. */
     if (decompressed && reader->type == CARQUET_PHYSICAL_BYTE_ARRAY &&
         page_header.data_page_header.encoding == CARQUET_ENCODING_PLAIN) {
-        free(reader->page_data_for_values);
+        if (!retire_page_data(reader)) {
+            free(decompressed);
+            CARQUET_SET_ERROR(error, CARQUET_ERROR_OUT_OF_MEMORY, "Failed to retain page data");
+            return CARQUET_ERROR_OUT_OF_MEMORY;
+        }
         reader->page_data_for_values = decompressed;
     } else {
         free(decompressed);
@@ -1164,7 +1203,16 @@ static carquet_status_t load_next_page_fread(
                    page_header.data_page_header.encoding == CARQUET_ENCODING_PLAIN);
 
     if (retain) {
-        free(reader->page_data_for_values);
+        if (!retire_page_data(reader)) {
+            if (page_data != compressed) {
+                free(page_data);
+            }
+            if (compressed) {
+                free(compressed);
+            }
+            CARQUET_SET_ERROR(error, CARQUET_ERROR_OUT_OF_MEMORY, "Failed to retain page data");
+            return CARQUET_ERROR_OUT_OF_MEMORY;
+        }
         reader->page_data_for_values = page_data;
         /* Free compressed buffer only if it's a separate allocation */
         if (compressed && compressed != page_data) {
